@@ -3120,35 +3120,33 @@ impl Fsm {
             );
         }
 
+        // Copy what is needed and release the global data before the child is loaded and started:
+        // starting a session locks the I/O processors, while the timer thread of this session
+        // (delayed <send>) holds an I/O processor when it locks this session's global data.
+        let (session_id, actions, mut executor) = {
+            let global = get_global!(datamodel);
+            (
+                global.session_id,
+                global.actions.get_copy(),
+                global.executor.as_ref().unwrap().clone(),
+            )
+        };
         let result = if src.is_empty() {
             match datamodel.evaluate_content(&inv.content) {
                 None => Err("No content to execute".to_string()),
-                Some(content) => {
-                    let mut global = get_global!(datamodel);
-                    let session_id = global.session_id;
-
-                    let actions = global.actions.get_copy();
-                    global
-                        .executor
-                        .as_mut()
-                        .unwrap()
-                        .execute_with_data_from_xml(
-                            content.lock().unwrap().to_string().as_str(),
-                            actions,
-                            &name_values,
-                            Some(session_id),
-                            &invokeId,
-                            FinishMode::DISPOSE,
-                            #[cfg(feature = "Trace")]
-                            self.tracer.trace_mode(),
-                        )
-                }
+                Some(content) => executor.execute_with_data_from_xml(
+                    content.lock().unwrap().to_string().as_str(),
+                    actions,
+                    &name_values,
+                    Some(session_id),
+                    &invokeId,
+                    FinishMode::DISPOSE,
+                    #[cfg(feature = "Trace")]
+                    self.tracer.trace_mode(),
+                ),
             }
         } else {
-            let mut global = get_global!(datamodel);
-            let session_id = global.session_id;
-            let actions = global.actions.get_copy();
-            global.executor.as_mut().unwrap().execute_with_data(
+            executor.execute_with_data(
                 src.to_string().as_str(),
                 actions,
                 &name_values,
